@@ -18,7 +18,13 @@ import (
 // state seeded by VERIF_SEED so a disagreement replays exactly.
 type Rng struct{ s uint64 }
 
-func NewRng(seed uint64) *Rng { return &Rng{s: seed*0x9E3779B97F4A7C15 + 0x1234567} }
+func NewRng(seed uint64) *Rng {
+	// scramble the seed first: with a plain multiple of the increment, seeds k and k+1 would
+	// produce shifted copies of one stream
+	z := (seed ^ 0xD6E8FEB86659FD93) * 0xBF58476D1CE4E5B9
+	z = (z ^ (z >> 29)) * 0x94D049BB133111EB
+	return &Rng{s: z ^ (z >> 32)}
+}
 
 func (r *Rng) U64() uint64 {
 	r.s += 0x9E3779B97F4A7C15
